@@ -471,7 +471,8 @@ def run(ctx):
             t.failed("initial state differs from the model", operations=ops, keys=list(d.keys()))
             break
         for step in range(rng.randint(1, 8)):
-            op = rng.choice(["set", "set", "del", "get", "first", "last", "before", "after", "sort", "sortkey", "sorttie", "copy", "cycle"])
+            op = rng.choice(["set", "set", "del", "get", "first", "last", "before", "after", "sort", "sortkey", "sorttie", "copy", "cycle", "mapping-api",
+                             "mapping-api"])
             k = rng.choice(KEYS)
             r = rng.choice(KEYS)
             before = snapshot(d)
@@ -499,6 +500,51 @@ def run(ctx):
                     if find(model, k) < 0:
                         exp_exc = KeyError
                     d[k]
+                elif op == "mapping-api":
+                    # the inherited mapping methods: get / pop with a default, setdefault, update, popitem, views
+                    which = rng.choice(["get-default", "pop-default", "setdefault", "update", "popitem", "views"])
+                    ops.append([which, k])
+                    i = find(model, k)
+                    if which == "get-default":
+                        got = d.get(k, "dflt")
+                        if got != (model[i][1] if i >= 0 else "dflt") or (d.get(k) is None) != (i < 0):
+                            t.failed("get(key, default) differs from the model", operations=ops, got=got)
+                            break
+                    elif which == "pop-default":
+                        got = d.pop(k, "dflt")
+                        if got != (model[i][1] if i >= 0 else "dflt"):
+                            t.failed("pop(key, default) differs from the model", operations=ops, got=got)
+                            break
+                        if i >= 0:
+                            del model[i]
+                    elif which == "setdefault":
+                        got = d.setdefault(k, "sd")
+                        if i < 0:
+                            model.append((k, "sd"))
+                        if got != (model[i][1] if i >= 0 else "sd"):
+                            t.failed("setdefault differs from the model", operations=ops, got=got)
+                            break
+                    elif which == "update":
+                        d.update({k: "u1", r: "u2"})
+                        for kk, vv in ((k, "u1"), (r, "u2")):
+                            j = find(model, kk)
+                            if j < 0:
+                                model.append((kk, vv))
+                            else:
+                                model[j] = (model[j][0], vv)
+                    elif which == "popitem":
+                        if not model:
+                            exp_exc = KeyError
+                        got = d.popitem()
+                        first = model.pop(0)
+                        if tuple(got) != first:
+                            t.failed("popitem() did not remove and return the first item", operations=ops, got=repr(got))
+                            break
+                    else:
+                        if list(d.values()) != [v_ for _s, v_ in model] or [tuple(x) for x in d.items()] != model or \
+                                (k in d) != (i >= 0) or (k.swapcase() in d) != (i >= 0):
+                            t.failed("values() / items() / membership differ from the model", operations=ops)
+                            break
                 elif op in ("first", "last"):
                     ops.append(["order_" + op, k])
                     i = find(model, k)
